@@ -188,19 +188,27 @@ def build(spec):
 
     overrides = []
 
+    # whole-column spelling of the ranges (A:A): only when every column has the height of the sheet - no short / shifted / re-shaped
+    # ranges in the spec - and then the criterion cells go into row 1 far to the right, so that they add no rows
+    whole = bool(spec.get('whole_cols')) and all(len(col) == len(cols[0]) for col in cols) and not any(
+        fs_.get('misaligned') or fs_.get('wide') or fs_.get('target_shape') or fs_.get('target_as_cell') for fs_ in spec['formulas'])
+
     def crit_cell(v):
         hrow[0] += 1
+        col_, row_ = ('H', str(hrow[0])) if not whole else (wbk.get_column_letter(90 + hrow[0]), '1')
         if spec.get('crit_override') and not isinstance(v, bool):
             # the workbook holds another value there: the criterion in force is the one set through the executor
-            cells[f'H{hrow[0]}'] = (v + 7) if isinstance(v, (int, float)) else 'zz-decoy'
-            overrides.append(('S', 'H', str(hrow[0]), v))
+            cells[f'{col_}{row_}'] = (v + 7) if isinstance(v, (int, float)) else 'zz-decoy'
+            overrides.append(('S', col_, row_, v))
         else:
-            cells[f'H{hrow[0]}'] = v
-        return f'H{hrow[0]}'
+            cells[f'{col_}{row_}'] = v
+        return f'{col_}{row_}'
     qs = []
     height = len(cols[0])
 
     def rng(c, h=None, off=0):
+        if whole and h is None and off == 0:
+            return f'{COLS[c]}:{COLS[c]}'
         return f'{COLS[c]}{1 + off}:{COLS[c]}{(h or len(cols[c])) + off}'
     for fi, fs in enumerate(spec['formulas']):
         fn, pairs, target = fs['fn'], fs['pairs'], fs.get('target')
@@ -316,7 +324,11 @@ def build(spec):
     for q_ in qs:
         if overrides:
             q_.tags.append('criterion-cell-overridden')
-    return {'sheets': [{'title': 'S', 'cells': cells}], 'queries': qs, 'first_col': 12, 'ncols': 64, 'overrides': overrides or None}
+    if whole:
+        for q_ in qs:
+            q_.tags.append('whole-column-ranges')
+    return {'sheets': [{'title': 'S', 'cells': cells}], 'queries': qs, 'first_col': 12, 'ncols': 64, 'overrides': overrides or None,
+            'mode': 'entry' if spec.get('entry_mode') else 'whole'}
 
 
 def run_case(spec):
@@ -393,7 +405,8 @@ def strategy():
                     pairs = [{'col': ci, 'crit': crit_for(ci)}]
                     wide = draw(st.sampled_from(['aligned', 'aligned', 'misaligned']))
                 formulas.append({'fn': fn, 'pairs': pairs, 'target': target, 'misaligned': draw(st.integers(0, 7)) == 0 and not wide, 'wide': wide})
-        return {'columns': cols, 'formulas': formulas, 'crit_override': draw(st.integers(0, 2)) == 0}
+        return {'columns': cols, 'formulas': formulas, 'crit_override': draw(st.integers(0, 2)) == 0,
+                'whole_cols': draw(st.integers(0, 2)) == 0, 'entry_mode': draw(st.integers(0, 5)) == 0}
     return spec()
 
 
